@@ -94,7 +94,7 @@ Proof.
   - cbn [content_values]. destruct (pop_back uris) as [[u us]|]; [|split; discriminate].
     destruct (IH us objects) as [A B].
     destruct (content_values c rest us objects); cbn [rbind]; split; congruence.
-  - cbn [content_values]. destruct (pop_back objects) as [[o objs]|]; [|split; discriminate].
+  - cbn [content_values]. destruct (pop_front objects) as [[o objs]|]; [|split; discriminate].
     destruct (IH uris objs) as [A B].
     destruct (content_values c rest uris objs); cbn [rbind]; split; congruence.
   - assert (E : content_values c (ty :: rest) uris objects = Err E_CONTENT_TYPE).
